@@ -169,3 +169,45 @@ Print Assumptions c05_scalar_exact_kind.
 Print Assumptions c05_mismatch_reported.
 Print Assumptions c05_unknown_field_skipped.
 Print Assumptions c05_skip_any_value.
+
+(* ---- sb.Tuple / sb.TypedTuple targets (tuple.go; Model/Tuples.v): arity, the opening token, termination ---- *)
+From SbModel Require Import Model.Tuples Proofs.TuplesP.
+
+Theorem c05_tuple_head_rejects : forall A (k : list token -> res A) tk rest,
+  (kind tk =? KLiteral) = false -> (kind tk =? KTuple) = false ->
+  tuple_head (tk :: rest) k = Err (EMismatch (kind tk) 19).
+Proof. exact tuple_head_rejects. Qed.
+
+Theorem c05_tuple_head_empty : forall A (k : list token -> res A), tuple_head [] k = Err EEnd.
+Proof. exact tuple_head_empty. Qed.
+
+(* a typed tuple takes exactly as many items as it has types *)
+Theorem c05_typed_tuple_too_few : forall pf o R types vals t more body rest f,
+  all_ok types vals -> marshal_all types vals = Ok body -> (2 * vsize_all vals + 2 < f)%nat ->
+  typed_tuple_unm pf f o R (types ++ t :: more) [] (T KTuple VNone :: body ++ T KTupleEnd VNone :: rest)
+    = Err ETooFew.
+Proof. exact typed_tuple_too_few. Qed.
+
+Theorem c05_typed_tuple_too_many : forall pf o R types1 vals1 t v types2 vals2 body rest f,
+  all_ok types1 vals1 -> all_ok (t :: types2) (v :: vals2) ->
+  marshal_all (types1 ++ t :: types2) (vals1 ++ v :: vals2) = Ok body ->
+  (2 * vsize_all (vals1 ++ v :: vals2) + 2 < f)%nat ->
+  typed_tuple_unm pf f o R types1 [] (T KTuple VNone :: body ++ T KTupleEnd VNone :: rest)
+    = Err ETooMany.
+Proof. exact typed_tuple_too_many. Qed.
+
+(* both targets terminate on every input (enough fuel exists and more never changes the outcome's being defined) *)
+Theorem c05_typed_tuple_total : forall pf o R types items ts,
+  exists f0, forall f, (f0 <= f)%nat -> typed_tuple_unm pf f o R types items ts <> OutOfFuel.
+Proof. exact typed_tuple_total. Qed.
+
+Theorem c05_tuple_total : forall pf o R items ts,
+  exists f0, forall f, (f0 <= f)%nat -> tuple_unm pf f o R items ts <> OutOfFuel.
+Proof. exact tuple_unm_total. Qed.
+
+Print Assumptions c05_tuple_head_rejects.
+Print Assumptions c05_tuple_head_empty.
+Print Assumptions c05_typed_tuple_too_few.
+Print Assumptions c05_typed_tuple_too_many.
+Print Assumptions c05_typed_tuple_total.
+Print Assumptions c05_tuple_total.
